@@ -1167,6 +1167,49 @@ func ForeignAlternatives(c *HintCall) []Alternative {
 			}
 		}
 	}
+	// quotient / remainder pairs of a reduction modulo p that is not one of the chip's own (GlGadgets.tla's reduce game played at a foreign
+	// hint): outputs (a, b) with a p + b = an input; moves: the remainder moved by one with the quotient solved in the field, the
+	// decomposition of the input + r, and (a - 1, b + p)
+	if n >= 2 {
+		pInv := new(big.Int).ModInverse(P, R)
+		for xi := range c.Inputs {
+			x := new(big.Int).Mod(c.Inputs[xi], R)
+			for qi := 0; qi < n; qi++ {
+				for ri := 0; ri < n; ri++ {
+					if qi == ri || h[ri].Cmp(P) >= 0 {
+						continue
+					}
+					v := new(big.Int).Mul(h[qi], P)
+					v.Add(v, h[ri]).Mod(v, R)
+					if v.Cmp(x) != 0 || (h[qi].Sign() == 0 && n > 2 && x.Sign() == 0) {
+						continue
+					}
+					mk := func(q, r *big.Int) []*big.Int {
+						o := make([]*big.Int, n)
+						for j := range o {
+							o[j] = new(big.Int).Set(h[j])
+						}
+						o[qi], o[ri] = new(big.Int).Mod(q, R), new(big.Int).Mod(r, R)
+						return o
+					}
+					r2 := new(big.Int).Add(h[ri], one)
+					if r2.Cmp(P) >= 0 {
+						r2.SetInt64(0)
+					}
+					q2 := new(big.Int).Sub(x, r2)
+					q2.Mul(q2, pInv).Mod(q2, R)
+					alts = append(alts, Alternative{Family: fmt.Sprintf("reduce/remainder-moved-quotient-solved out=%d,%d", qi, ri), Out: mk(q2, r2)})
+					y := new(big.Int).Add(x, R)
+					q3, r3 := new(big.Int).QuoRem(y, P, new(big.Int))
+					alts = append(alts, Alternative{Family: fmt.Sprintf("reduce/of-input-plus-r out=%d,%d", qi, ri), Out: mk(q3, r3)})
+					alts = append(alts, Alternative{Family: fmt.Sprintf("reduce/quotient-minus-one out=%d,%d", qi, ri), Out: mk(new(big.Int).Sub(h[qi], one), new(big.Int).Add(h[ri], P))})
+				}
+			}
+		}
+		if len(alts) > 0 {
+			return alts
+		}
+	}
 	// other: a Goldilocks-valued output given as value + p (the same residue, not canonical), then every output + 1
 	for i := range h {
 		if h[i].Cmp(P) < 0 {
